@@ -77,12 +77,12 @@ def getString (d : Bytes) : R Bytes :=
 def arrayLoop (d : Bytes) : Nat → Nat → List Bytes → R (List Bytes)
   | 0, _, acc => .ok acc
   | f + 1, index, acc =>
-    if index + 4 < d.length then
+    -- `for index+4 <= len(self.Data)`: zero-length elements are ordinary elements (repaired in /repo, e6b8126)
+    if index + 4 ≤ d.length then
       match u32At d index with
       | none => .panic
       | some vl =>
-        if vl = 0 then arrayLoop d f (index + 4) acc
-        else if index + 4 + vl > d.length then .ok acc
+        if index + 4 + vl > d.length then .ok acc
         else match sliceC d (index + 4) (index + 4 + vl) with
           | none => .panic
           | some s => arrayLoop d f (index + vl + 4) (acc ++ [s])
